@@ -43,7 +43,7 @@ ASSUMPTIONS = [
 SELFCHECKS = [ref.selfcheck, faultfs.selfcheck]
 
 MAGICS = ["f9beb4d9", "0b110907", "fabfb5da"]
-SIZE_CLASSES = ["fit", "spare1", "over1", "tiny", "full", "mid", "fit", "over1"]
+SIZE_CLASSES = ["fit", "fit", "spare1", "over1", "over1", "full", "mid", "tiny0", "tiny1", "tiny2", "tiny3"]
 
 # ---------------------------------------------------------------- library handling
 
@@ -203,8 +203,7 @@ class Plan:
                     cls.add("rollover-with-file-count!=next-number")
             if pending_restart and blocks:
                 cls.add("nt:restart-then-append")
-            if blocks:
-                pending_restart = False
+            pending_restart = False
             if max(model.files) >= 10:
                 cls.add("file-number>=10")
         if not nwrites:
@@ -519,9 +518,10 @@ def resolve(cls, left, L, tiny=1, mid=None):
 @st.composite
 def draw_size(draw, sim):
     cls = draw(st.sampled_from(SIZE_CLASSES))
-    tiny = draw(st.integers(0, 3))
+    if cls.startswith("tiny"):
+        return int(cls[4:])
     mid = draw(st.integers(0, sim.L - 8)) if cls == "mid" else None
-    return resolve(cls, sim.left, sim.L, tiny, mid)
+    return resolve(cls, sim.left, sim.L, 1, mid)
 
 
 @st.composite
